@@ -11,6 +11,7 @@ CONSTANTS
  ConvertWithLiveVfs = FALSE
  CancelledDiagPublishesEmpty = FALSE
  RespawnAllDiags = TRUE
+ PublishOnlyLatest = TRUE
  HoldVfsAcrossApply = FALSE
  SnapshotInTask = FALSE
  PollWhileWaiting = TRUE
